@@ -1174,4 +1174,16 @@ example : ([1, 2, 3, 4] : List ℝ).Pairwise (· < ·) ∧ (∀ f ∈ ([1, 2, 3,
   simp at hf
   rcases hf with rfl | rfl | rfl | rfl <;> norm_num
 
+/-- `_fit_power_spectra` returns `np.abs` of the optimiser's solution: this never changes the fitted
+    spectrum, which depends on `f_c`, `f_diode`, `α` only through their squares (`D` is not
+    symmetric — it is kept non-negative by the bound `D ≥ 0`) -/
+theorem abs_of_solution_keeps_spectrum (f fc D fd al : ℝ) :
+    lorentzDiodePsd f |fc| D |fd| |al| = lorentzDiodePsd f fc D fd al ∧
+    lorentzianPsd f |fc| D = lorentzianPsd f fc D := by
+  have h1 : |fc| * |fc| = fc * fc := abs_mul_abs_self fc
+  have h2 : |al| * |al| = al * al := abs_mul_abs_self al
+  have h3 : f / |fd| * (f / |fd|) = f / fd * (f / fd) := by
+    rw [div_mul_div_comm, div_mul_div_comm, abs_mul_abs_self]
+  simp only [lorentzDiodePsd, lorentzianPsd, gDiode, h1, h2, h3, and_self]
+
 end Verif.C11
